@@ -53,12 +53,26 @@ def injective_sort_key(module, key):
   return False
 
 
+def accumulator_attr(ci):
+  """`self.<attr>` the aggregate accumulates in: self.result when there is
+  one, else the single attribute the constructor initialises."""
+  init = ci.methods.get('__init__')
+  if init is None:
+    return None
+  attrs = [dotted(x.targets[0]) for x in walk_local(init.node) if isinstance(x, ast.Assign)
+           and (dotted(x.targets[0]) or '').startswith('self.')]
+  if 'self.result' in attrs:
+    return 'self.result'
+  return attrs[0] if len(set(attrs)) == 1 else None
+
+
 def result_kind(ci):
   init = ci.methods.get('__init__')
   if init is None:
     return None
+  acc = accumulator_attr(ci)
   for x in walk_local(init.node):
-    if isinstance(x, ast.Assign) and dotted(x.targets[0]) == 'self.result':
+    if isinstance(x, ast.Assign) and acc and dotted(x.targets[0]) == acc:
       v = x.value
       if isinstance(v, ast.Call) and call_tail(v) in ('set', 'frozenset'):
         return 'set'
@@ -87,6 +101,11 @@ def sanitised_uses(module, fi, attr='self.result'):
       hops = 0
       while p is not None and hops < 6:
         hops += 1
+        if (isinstance(p, ast.UnaryOp) and isinstance(p.op, ast.Not)) or \
+            (isinstance(p, (ast.If, ast.While, ast.IfExp)) and p.test is node) or \
+            isinstance(p, ast.BoolOp):
+          ok = True                  # emptiness test: the same for every order
+          break
         if isinstance(p, ast.Call) and node in p.args:
           t = call_tail(p)
           if t == 'sorted':
@@ -144,6 +163,26 @@ def aggregate_order(chk, rid):
              ORDER_EXEMPT[sqlname], fi=fin, nontrivial=False)
       continue
     elements_unchanged(chk, rid, sqlname, ci, step, fin)
+    acc = accumulator_attr(ci) or 'self.result'
+    if kind == 'scalar':
+      verdict, why = scalar_accumulator(chk.repo, ci, step, acc)
+      if verdict is None:
+        raise AnalysisError('aggregate %s: update of the scalar accumulator not understood (%s)'
+                            % (sqlname, why))
+      chk.ob(rid, verdict, None,
+             'aggregate %s folds its rows with a commutative, associative operation' % sqlname,
+             'the accumulator is updated by %s: the result depends on the order in which '
+             'the rows arrive' % why, fi=step)
+      continue
+    if kind == 'list' and acc != 'self.result':
+      n, bad = sanitised_uses(m, fin, acc)
+      grows = [c for c in walk_local(step.node) if isinstance(c, ast.Call) and
+               receiver(c) == acc and call_tail(c) not in ('append', 'extend')]
+      chk.ob(rid, n > 0 and not bad and not grows, None,
+             'aggregate %s: finalize reads the arrival-ordered list only through a total order' % sqlname,
+             'rows are collected in arrival order and finalize returns them '
+             'without sorting (%s)' % '; '.join(bad + [norm(g, 40) for g in grows]), fi=fin)
+      continue
     if kind == 'set':
       n, bad = sanitised_uses(m, fin)
       chk.ob(rid, n > 0 and not bad, None,
@@ -615,3 +654,82 @@ def reserved_prefix(chk, rid):
            "of its own, but ParseVariable does not refuse all such names: renaming a "
            "variable to one of them changes how it is eliminated / reported and thereby "
            "the rows" % pref, fi=pv.fi)
+
+
+def scalar_accumulator(repo, ci, step, acc):
+  """(True, '') when every update of the scalar accumulator folds the new value
+  in with a commutative and associative operation (| & ^ max min, boolean
+  or / and of bool(..) operands, a counter); (False, why) for an update that
+  is order dependent by construction (overwrite, - / // %); (None, why) when
+  the form is not one this rule knows."""
+  v = FnView.of(repo, step)
+  params = [p_ for p_ in step.params if p_ != 'self']
+  ups = []
+  for x in walk_local(step.node):
+    if isinstance(x, ast.Assign) and dotted(x.targets[0]) == acc:
+      ups.append(('=', v.expand(x.value, 3)))
+    elif isinstance(x, ast.AugAssign) and dotted(x.target) == acc:
+      ups.append((type(x.op).__name__, v.expand(x.value, 3)))
+  if not ups:
+    return None, 'no update found'
+
+  def operand(e):
+    """the accumulator, the new value, a constant - possibly through bool()/int()"""
+    while isinstance(e, ast.Call) and call_tail(e) in ('bool', 'int') and len(e.args) == 1:
+      e = e.args[0]
+    if isinstance(e, ast.IfExp):
+      return operand(e.body) and operand(e.orelse)
+    return dotted(e) == acc or (isinstance(e, ast.Name) and e.id in params) or \
+        isinstance(e, ast.Constant)
+
+  def boolish(e):
+    return isinstance(e, ast.Compare) or (isinstance(e, ast.Call) and call_tail(e) == 'bool'
+                                          and len(e.args) == 1 and operand(e.args[0]))
+
+  def fold(e):
+    if isinstance(e, ast.IfExp):
+      a_, b_ = fold(e.body), fold(e.orelse)
+      if a_[0] is False or b_[0] is False:
+        return a_ if a_[0] is False else b_
+      if a_[0] is None or b_[0] is None:
+        return a_ if a_[0] is None else b_
+      return True, ''
+    if isinstance(e, ast.Call) and call_tail(e) in ('int', 'bool') and len(e.args) == 1:
+      return fold(e.args[0])
+    if isinstance(e, ast.Constant):
+      return True, ''
+    if isinstance(e, ast.Name) and e.id in params:
+      return True, ''               # first value (guarded by `is None` elsewhere) - judged below
+    if dotted(e) == acc:
+      return True, ''
+    if isinstance(e, ast.BinOp):
+      if isinstance(e.op, (ast.BitOr, ast.BitAnd, ast.BitXor)) and operand(e.left) and operand(e.right):
+        return True, ''
+      if isinstance(e.op, (ast.Sub, ast.Div, ast.FloorDiv, ast.Mod, ast.Pow, ast.LShift, ast.RShift)):
+        return False, '`%s`' % norm(e, 40)
+      return None, norm(e, 40)
+    if isinstance(e, ast.Call) and call_tail(e) in ('max', 'min') and all(operand(a_) for a_ in e.args):
+      return True, ''
+    if isinstance(e, ast.BoolOp) and all(boolish(x_) for x_ in e.values):
+      return True, ''
+    return None, norm(e, 40)
+
+  for op, e in ups:
+    if op in ('BitOr', 'BitAnd', 'BitXor'):
+      if not operand(e):
+        return None, norm(e, 40)
+      continue
+    if op in ('Sub', 'Div', 'FloorDiv', 'Mod', 'Pow'):
+      return False, 'an augmented `%s`' % op
+    if op != '=':
+      if op == 'Add' and isinstance(e, ast.Constant):
+        continue                      # a counter
+      return None, 'augmented %s' % op
+    # a plain overwrite with the new value on a path where the accumulator is
+    # already set is "last row wins"
+    if isinstance(e, ast.Name) and e.id in params:
+      return False, 'a plain overwrite with the new value (`%s = %s`)' % (acc, e.id)
+    r_ = fold(e)
+    if r_[0] is not True:
+      return r_
+  return True, ''
